@@ -10,6 +10,11 @@ CLAIMED = {
   "Trusted: go/ssa construction, the gosym interpreter (fork of x/tools go/ssa/interp), z3 4.8.12; invariant stated in harness/C20/lockset.go; bounds in evidence.coverage.bounds. Outside the claim: lock sets with more entries than the bound.",
   "SMT-based symbolic execution of go/ssa (z3), inductive step from symbolic pre-state, native replay of counterexamples",
   "DESIGN.md §4 C20"),
+ "C15": (
+  "Bounded symbolic model checking of the real code: bitmapSectorAllocator.AllocateContiguous/FreeContiguous/FreeList and quotaEnforcingFilePool.NewFile/Truncate/WriteAt/Close executed symbolically from go/ssa, one step from an arbitrary valid pre-state (every bitmap word a symbolic 64-bit value, quota counters and sizes symbolic 64-bit, base-pool results arbitrary within the io.WriterAt contract); z3 (z3 5.1/cvc5 fallback on unknown) decides every branch and assertion. Holds for all values within the bounds: bitmaps of 2 (quick) / 3 (thorough) words, writes of <=3 bytes, one distinguished file.",
+  "Trusted: go/ssa, the gosym interpreter, the SMT solvers. Invariants and oracles in harness/C15/*.go. Outside the claim: bitmaps longer than the bound, the CAS retry loop of quotaMetric under real concurrency (single-threaded here), metrics_file_pool.go.",
+  "SMT-based symbolic execution of go/ssa (z3), inductive step from symbolic pre-state, native replay of counterexamples",
+  "DESIGN.md §4 C15"),
 }
 
 PENDING_REASON = "check not registered yet (framework under construction; see DESIGN.md §6 build order)"
